@@ -81,6 +81,25 @@ CLAIMED = {
              "only; 2/pi applied once in F_to_G. Equality with the compiled Fortran stog_bit and with Gauss-Legendre quadrature of the "
              "model is checked numerically; the discretised-transform-of-extended-data reading holds only in the limit (not a theorem).",
              ref="8 (C15)", tech="Lean 4 theorems (interval integrals via FTC) on translator output + compiled-Fortran/quadrature oracle"),
+ "C10": dict(text="Theorems on the hand model of merge_data (stable sort + five-variable run-length fold, mirrored statement by statement): "
+             "merge = group-by-Q specification (sorted distinct stored Q values, each with the arithmetic mean and sqrt(sum dy^2)/n) for "
+             "every list of points; grid strictly increasing with each stored Q exactly once; value between min and max of its "
+             "contributions; invariant under permutation of the stored points, hence (with the ingestion model) independent of the "
+             "add order; merging the sorted storage again changes nothing. The model is tied to the real StoG by an op-sequence "
+             "correspondence compared after every add_dataset/merge_data (bit-exact). Float-only effect (0.1+0.2 != 0.3 splitting a "
+             "bin) is covered by the Float reading + oracle.", ref="8 (C10), 5",
+             tech="Lean 4 theorems on a hand-written model (fold invariant, Finset.sort, List.Perm) + op-sequence correspondence"),
+ "C11": dict(text="Theorems on the hand model of add_dataset (crop and conversions delegated to the generated code): ingestion is "
+             "history-free (storage = concatenation of per-dataset rows), both arrays carry the same Q row after any sequence "
+             "(invariant by induction), no stored point outside the global window, S(Q) row = generated conversion of the raw row with "
+             "the instance's scattering lengths, scale-then-offset/uncertainty-scaled-only/Q-shift formula, a plain lattice dataset is "
+             "stored whole. 'No point inside both windows is lost' in full generality is checked by the oracle (independent "
+             "recomputation), not proved.", ref="8 (C11), 5",
+             tech="Lean 4 theorems on a hand-written model + generated code; op-sequence correspondence; recomputation oracle"),
+ "C17": dict(text="Theorems on the hand model of the tail of merge_data for all 16 present/absent subsets of the four option keys: stored "
+             "Q[S-1] = cF*Q*(aS*mean+bS-1)+dF; stored S = F/Q+1 for Q>0; F = Q(S-1) on the common grid; each absent key == its identity "
+             "value. NaN-freeness is a float statement checked by the oracle.", ref="8 (C17), 5",
+             tech="Lean 4 theorems (case split over Option fields) on a hand-written model + exhaustive-subset correspondence"),
 }
 
 m = {"version": 1, "setup_cmd": "./setup.sh",
